@@ -7,10 +7,10 @@ from rules import common, rolling
 
 CLAIMED = True
 TECHNIQUE = "static analysis over type-checked MIR: provenance of every opened/stored/archived path from expand_env_vars (call-site floor), constant agreement (prefix/suffix literals vs. offsets used), control dependence of the single replace site on the terminated-name flag and env::var == Ok, decision tables of the two character predicates, panic-site inventory of the scanner"
-LEVEL_TEXT = """Static decision of the call-site and guard clauses (the scanner's byte-for-byte string algorithm is NOT claimed): (N1) the path opened by FileAppenderBuilder::build, the path stored by RollingFileAppenderBuilder::build and every pattern-derived path in the fixed-window roller derive from an expand_env_vars result (floor: 6 call sites); (N2) the literal searched for is "$ENV{", the offset added to a match equals its length, the terminator compared is '}' and the amount added for it equals its UTF-8 length; (N3) the only rewrite of the output path is one str::replace call that is control-dependent on the name having been terminated by the suffix and on env::var(name) being Ok, and replaces exactly the matched slice with the variable's value; (N4) first-character predicate = is_alphanumeric OR '_', inner predicate = is_alphanumeric OR '_' OR '.'; (N5) no un-discharged panic site in the scanner (slices/split_at offsets come from match_indices/len of the same string)."""
+LEVEL_TEXT = """Static decision of the call-site and guard clauses (the scanner's byte-for-byte string algorithm is NOT claimed): (N1) the path opened by FileAppenderBuilder::build, the path stored by RollingFileAppenderBuilder::build and every pattern-derived path in the fixed-window roller derive from an expand_env_vars result (floor: 6 call sites); (N2) the literal searched for is "$ENV{", the offset added to a match equals its length, the terminator compared is '}' and the amount added for it equals its UTF-8 length; (N3) the only rewrite of the output path is one str::replace call that is control-dependent on the name having been terminated by the suffix and on env::var(name) being Ok, and replaces exactly the matched slice with the variable's value; (N4) first-character predicate = is_alphanumeric OR '_', inner predicate = is_alphanumeric OR '_' OR '.'; (N6) no definite character count is used as a byte offset (and no byte count steps a character iterator) in the scanner; (N5) no un-discharged panic site in the scanner (slices/split_at offsets come from match_indices/len of the same string)."""
 LEVEL_NOTE = "Trusted: rustc MIR/callee resolution; str::match_indices/replace/split_at, char::is_alphanumeric, std::env::var. Output for every path string (adjacent/repeated references, values combining with neighbours) is not decided."
-EXPLANATION = """Decided: N1 all six locations expanded, N2 constants agree, N3 replacement guard, N4 predicates, N5 no panic. Undecided: byte-for-byte output of the scanner for every path string."""
-DECIDED = ["N1", "N2", "N3", "N4", "N5"]
+EXPLANATION = """Decided: N1 all six locations expanded, N2 constants agree, N3 replacement guard, N4 predicates, N5 no panic, N6 byte/char unit discipline. Undecided: byte-for-byte output of the scanner for every path string."""
+DECIDED = ["N1", "N2", "N3", "N4", "N5", "N6"]
 UNDECIDED = ["scanner output for all strings (adjacent/repeated references, interacting values)"]
 TRUSTED = ["rustc nightly MIR + Instance::try_resolve", "std str/char/env APIs", "external may-panic contract table"]
 
@@ -199,6 +199,10 @@ def run_cfg(ctx, p, cfg):
             sw = [(si, al) for sb in [None] for blk in f.blocks if blk["term"]["k"] == "switch" for si in [SwitchInfo(f, blk["id"])] for al in [None]
                   if strip(si.discr)[0] == "call" and strip(si.discr)[1] == g.path]
             r.require(len(sw) == 1, "predicate-branched-on:%s" % ("first" if gate_first else "inner"), fn=f, detail="one branch on the predicate's result")
+
+    with ctx.rule("N6", "offsets are byte offsets", cfg) as r:
+        fns = [f for pth, f in sorted(p.fns.items()) if pth.startswith("append::env_util::")]
+        common.rule_units(r, p, fns, floor=2)
 
     with ctx.rule("N5", "no panic", cfg) as r:
         cone = p.cone([EXPAND], cut_traits=())
